@@ -28,6 +28,16 @@ Theorem C14_call_records_active_only_in_source : call_records_active_only = true
 Proof. exact eq_refl. Qed.
 Print Assumptions C14_call_records_active_only_in_source.
 
+(* (T) sliding.py::slide is one `while True:` loop WITHOUT an iteration cap: its only `break` is
+   the modelled one (a non-sliding element), its only other exits are the three modelled
+   returns, and it keeps no step counter.  This is what licenses reading the model's explicit
+   fuel as "enough": the theorems hold for all sufficiently large fuel, and the implementation
+   has no bound at which it would give up (a loop over context variables runs to its end,
+   however many iterations it needs) *)
+Theorem C14_slide_has_no_step_bound_in_source : slide_unbounded = true.
+Proof. exact eq_refl. Qed.
+Print Assumptions C14_slide_has_no_step_bound_in_source.
+
 (* slide() on compiled code follows the structured semantics inside one flow body: sequencing,
    set, if/else, while, break, continue at any nesting depth, up to the next statement that needs
    an event, the next `do`, or the end of the body (kmatch: continuation <-> code position) *)
